@@ -79,6 +79,12 @@ func runNatsCase(kind string, timeoutMs int) (string, bool, string) {
 	var scriptMu sync.Mutex
 	answers := map[uint64]int{} // op id -> number of responses the peer sends
 	foreign := false
+	type heldAnswer struct {
+		id    uint64
+		reply string
+		seen  chan struct{}
+	}
+	var heldBack *heldAnswer
 	peer.Subscribe(subject, func(m *nats.Msg) {
 		if len(m.Data) < 5 {
 			return
@@ -91,7 +97,13 @@ func runNatsCase(kind string, timeoutMs int) (string, bool, string) {
 		scriptMu.Lock()
 		n := answers[id]
 		fg := foreign
+		hb := heldBack
 		scriptMu.Unlock()
+		if hb != nil && id == hb.id {
+			hb.reply = m.Reply
+			hb.seen <- struct{}{}
+			return
+		}
 		if fg {
 			body := respFrame(1<<62+7, 1)
 			peer.Publish(m.Reply, append(be32(uint32(len(body))), body...))
@@ -152,6 +164,63 @@ func runNatsCase(kind string, timeoutMs int) (string, bool, string) {
 		foreign = true
 	case "reuse":
 		answers[idA] = 2
+	}
+	if kind == "reopen" {
+		// A is held back by the peer; the application closes and reopens the transport; B (after the reopen) is
+		// answered; then the peer answers A on A's own reply subject: A must still complete with its response
+		hb := &heldAnswer{id: idA, seen: make(chan struct{}, 1)}
+		scriptMu.Lock()
+		heldBack = hb
+		scriptMu.Unlock()
+		ctxA.SetTimeout(3 * time.Second) // A waits across the reopen: the scenario is about delivery, not about A's deadline
+		doneA := make(chan string, 1)
+		go func() { doneA <- do(ctxA, idA) }()
+		select {
+		case <-hb.seen:
+		case <-time.After(2 * time.Second):
+			return "A=not-sent B=- fresh=- reg=-", false, "request A did not reach the peer"
+		}
+		if err := tr.Close(); err != nil {
+			return "A=close-failed B=- fresh=- reg=-", false, "Close failed: " + err.Error()
+		}
+		if err := tr.Open(); err != nil {
+			return "A=reopen-failed B=- fresh=- reg=-", false, "reopen failed: " + err.Error()
+		}
+		ctxB := frugal.NewFContext("")
+		ctxB.SetTimeout(timeout)
+		idB, _ := frugal.VerifGetOpID(ctxB)
+		scriptMu.Lock()
+		answers[idB] = 1
+		scriptMu.Unlock()
+		outB = do(ctxB, idB)
+		body := respFrame(idA, 7)
+		peer.Publish(hb.reply, append(be32(uint32(len(body))), body...))
+		peer.Flush()
+		outA := <-doneA
+		if outA != "ok:7" {
+			why = "request A, in flight across a Close/Open of its transport and answered afterwards on its own reply subject, did not complete with its response: " + outA
+		}
+		if outB != "ok:7" && why == "" {
+			why = "request B, issued after the reopen and answered, did not complete: " + outB
+		}
+		scriptMu.Lock()
+		heldBack = nil
+		scriptMu.Unlock()
+		ctxF := frugal.NewFContext("")
+		ctxF.SetTimeout(500 * time.Millisecond)
+		idF, _ := frugal.VerifGetOpID(ctxF)
+		scriptMu.Lock()
+		answers[idF] = 1
+		scriptMu.Unlock()
+		fresh := do(ctxF, idF)
+		if fresh != "ok:7" && why == "" {
+			why = "a fresh request after the scenario was not served: " + fresh
+		}
+		reg := frugal.VerifNatsRegistrySize(tr)
+		if reg != 0 && why == "" {
+			why = fmt.Sprintf("%d registrations left behind", reg)
+		}
+		return fmt.Sprintf("A=%s B=%s fresh=%s reg=%d", outA, outB, fresh, reg), why == "", why
 	}
 	var hold *natsHold
 	if kind == "reuse" {
@@ -228,7 +297,7 @@ func runNatsCase(kind string, timeoutMs int) (string, bool, string) {
 	return fmt.Sprintf("A=%s B=%s fresh=%s reg=%d", outA, outB, fresh, reg), why == "", why
 }
 
-var natsKinds = []string{"early", "dup3", "silent", "foreign", "reuse", "reuse"}
+var natsKinds = []string{"early", "dup3", "silent", "foreign", "reuse", "reuse", "reopen"}
 
 func runNatsReqSuite(r *Rng, n int) {
 	installNatsYield()
